@@ -262,6 +262,16 @@ class WrapReadOnly(WrapFS[_F], typing.Generic[_F]):
         self.check()
         raise ResourceReadOnly(dst_path)
 
+    def copydir(self, src_path, dst_path, create=False, preserve_time=False):
+        # type: (Text, Text, bool, bool) -> None
+        self.check()
+        raise ResourceReadOnly(dst_path)
+
+    def movedir(self, src_path, dst_path, create=False, preserve_time=False):
+        # type: (Text, Text, bool, bool) -> None
+        self.check()
+        raise ResourceReadOnly(dst_path)
+
     def create(self, path, wipe=False):
         # type: (Text, bool) -> bool
         self.check()
